@@ -8,7 +8,7 @@ Three parties per case:  IMPL (goja via harness)  /  MECH (Lean transcription of
 SPEC (Lean `spec…` definitions; plus an independent python oracle used when the Lean build is broken and as a
 cross-check).  corr = IMPL vs MECH;  property = IMPL vs SPEC.
 """
-import json, math, os, re, struct, sys
+import json, math, os, re, struct, sys, time
 from vlib import *
 
 P53 = 1 << 53
@@ -306,6 +306,88 @@ def js_cases(rng, tier):
         lit(src, None)
     return cases
 
+
+OBS_JS = ("function(a,b){var r='';function t(x){r+=x?'1':'0'} t(Object.is(a,b));t(Object.is(b,a));t(a===b);t(b===a);"
+          "var sw=false;switch(a){case b:sw=true};t(sw);t(new Map([[a,1]]).get(b)===1);t(new Map([[b,1]]).get(a)===1);"
+          "t(new Set([a]).has(b));t(new Set([b]).has(a));t([a].includes(b));t([b].includes(a));t([a].indexOf(b)===0);"
+          "t([b].lastIndexOf(a)===0);var o={};o[a]=1;t(o[b]===1);t(String(a)===String(b));t(a==b);return r}")
+
+def js_num_literal(x):
+    if x != x: return "NaN"
+    if math.isinf(x): return "Infinity" if x > 0 else "-Infinity"
+    if x == 0: return "-0" if math.copysign(1.0, x) < 0 else "0"
+    return repr(x) if x > 0 else "(" + repr(x) + ")"
+
+def _toint32(x): return int(py_spec_conv("int32", x))
+def _touint32(x): return int(py_spec_conv("uint32", x))
+def _s32(v):
+    v &= 0xFFFFFFFF
+    return v - (1 << 32) if v >= (1 << 31) else v
+
+def _round(x):
+    if x != x or math.isinf(x) or abs(x) >= 2.0 ** 52: return x
+    f = math.floor(x)
+    r = f + 1.0 if x - f >= 0.5 else float(f)
+    return math.copysign(0.0, x) if r == 0 else float(r)
+
+def _minmax(op, x, y):
+    if x != x or y != y: return math.nan
+    if x == 0 and y == 0:
+        neg = (math.copysign(1, x) < 0, math.copysign(1, y) < 0)
+        if op == "max": return -0.0 if all(neg) else 0.0
+        return -0.0 if any(neg) else 0.0
+    return max(x, y) if op == "max" else min(x, y)
+
+def _keep_sign_zero(r, x):
+    return math.copysign(0.0, x) if r == 0 else r
+
+BIN_T = [("+", "add"), ("-", "sub"), ("*", "mul"), ("/", "div"), ("%", "mod"), ("&", None), ("|", None), ("^", None), ("<<", None), (">>", None), (">>>", None)]
+UN_T = ["-", "~", "+", "inc", "dec", "Math.abs", "Math.floor", "Math.ceil", "Math.trunc", "Math.round", "Math.fround", "Math.sqrt", "Math.sign", "|0", ">>>0"]
+
+def gen_tree(rng, depth, vals):
+    """returns (js source over variables a,b,c, python value as float)"""
+    if depth == 0 or rng.random() < 0.15:
+        k = rng.randrange(3)
+        return "abc"[k], vals[k]
+    c = rng.random()
+    if c < 0.55:
+        sym, name = rng.choice(BIN_T)
+        ls, lv = gen_tree(rng, depth - 1, vals)
+        rs, rv = gen_tree(rng, depth - 1, vals)
+        if name:
+            v = ieee(name, lv, rv)
+        else:
+            a, b = _toint32(lv), _toint32(rv); ua, ub = a & 0xFFFFFFFF, b & 0xFFFFFFFF; sh = ub & 31
+            v = float({"&": _s32(ua & ub), "|": _s32(ua | ub), "^": _s32(ua ^ ub), "<<": _s32(ua << sh), ">>": a >> sh, ">>>": ua >> sh}[sym])
+        return "(%s %s %s)" % (ls, sym, rs), v
+    if c < 0.65:
+        op = rng.choice(("max", "min"))
+        ls, lv = gen_tree(rng, depth - 1, vals)
+        rs, rv = gen_tree(rng, depth - 1, vals)
+        return "Math.%s(%s, %s)" % (op, ls, rs), _minmax(op, lv, rv)
+    u = rng.choice(UN_T)
+    es, ev = gen_tree(rng, depth - 1, vals)
+    if u == "-": return "(-%s)" % es, -ev
+    if u == "~": return "(~%s)" % es, float(~_toint32(ev))
+    if u == "+": return "(+%s)" % es, ev
+    if u == "inc": return "inc(%s)" % es, ev + 1.0
+    if u == "dec": return "dec(%s)" % es, ev - 1.0
+    if u == "|0": return "(%s|0)" % es, float(_toint32(ev))
+    if u == ">>>0": return "(%s>>>0)" % es, float(_touint32(ev))
+    if u == "Math.abs": v = abs(ev)
+    elif u == "Math.floor": v = ev if (ev != ev or math.isinf(ev)) else _keep_sign_zero(float(math.floor(ev)), ev)
+    elif u == "Math.ceil": v = ev if (ev != ev or math.isinf(ev)) else _keep_sign_zero(float(math.ceil(ev)), ev)
+    elif u == "Math.trunc": v = ev if (ev != ev or math.isinf(ev)) else _keep_sign_zero(float(math.trunc(ev)), ev)
+    elif u == "Math.round": v = _round(ev)
+    elif u == "Math.fround":
+        try:
+            v = struct.unpack("<f", struct.pack("<f", ev))[0]
+        except OverflowError:
+            v = math.copysign(math.inf, ev)
+    elif u == "Math.sqrt": v = math.nan if (ev != ev or ev < 0) else (ev if ev == 0 else math.sqrt(ev))
+    else: v = ev if (ev != ev or ev == 0) else math.copysign(1.0, ev)   # Math.sign
+    return "%s(%s)" % (u, es), v
+
 STR_POOL = ["", " ", "0", "-0", "+0", "6.0", "6.", ".6", ".", "-", "+", "1e3", "1E3", "1e+3", "1e-3", "1e", "e3", "1e400", "-1e400", "1e-400", "-1e-400",
             "Infinity", "+Infinity", "-Infinity", "infinity", "INFINITY", "Inf", "inf", "+inf", "-Inf", "NaN", "nan", "0x10", "0X1f", "0x", "0xg", "0x-5", "0x+5", "-0x10", "+0x10",
             "0b101", "0B11", "0b2", "0b", "0b-1", "0b+1", "0o17", "0O7", "0o8", "0o", "0o-7", "0x1p3", "0x.8", "1_000", "0x1_0", "1__0", "_1", "00x1", "010", "09", "-010",
@@ -363,21 +445,27 @@ def main(ctx):
     ok, errs = ctx.lake_build(["GojaModel.C05.Props", "GojaModel.C05.Tie", "model_c05"])
     if regen_ok:
         ctx.obligation("tie:C05_NumSites+C05_Shapes regenerated", "tie", True, "; ".join(ctx.stats.get("extract", [])))
-    names = ctx.audit("GojaModel.C05.Props", expect_min=40)
+    t_build = time.time() - ctx.t0
+    names = ctx.audit("GojaModel.C05.Props", expect_min=55)
     tie_errs = [e for e in errs if os.path.basename(e["file"]) == "Tie.lean" or "Generated" in e["file"]]
-    for t in ("numSites_ok", "wrappers_ok", "maxInt_tie"):
-        # Tie theorems are `by decide` over regenerated data: checked by the lake build above (a failure is already a broken obligation)
-        ctx.obligation("tie:GojaModel.C05.Tie." + t, "tie", ok or not tie_errs, "lake build of GojaModel.C05.Tie")
+    tie_bad = {e["decl"] for e in tie_errs}
+    for t in ("numSites_ok", "wrappers_ok", "wrappers_canonical", "maxInt_tie", "whitespace_tie", "canonicalisers_tie", "conversions_tie",
+              "mul_tie", "strnum_tie", "identity_tie", "includes_tie", "mathsign_tie"):
+        # Tie theorems are `rfl`/`decide` over regenerated data: checked by the lake build above; a failing one is already a
+        # broken obligation named lean:…Tie.lean:<theorem>; here the ones that still check are recorded as discharged
+        if regen_ok and t not in tie_bad and not any(os.path.basename(e["file"]).startswith("C05_") or e["decl"] in ("?", "lake build") for e in tie_errs):
+            ctx.obligation("tie:GojaModel.C05.Tie." + t, "tie", True, "lake build of GojaModel.C05.Tie")
     if ctx.tier == "thorough" and ok:
         ctx.leanchecker("GojaModel.C05.Props")
     model = ctx.model_exe()
-    have_model = os.path.exists(model) and regen_ok and not any(os.path.basename(e["file"]) in ("Driver.lean", "Model.lean", "Num.lean", "F64.lean", "C05_Shapes.lean", "C05.lean") for e in errs)
+    # the driver does not import regenerated facts: it is available whenever the model itself builds
+    have_model = os.path.exists(model) and not any(os.path.basename(e["file"]) in ("Driver.lean", "Model.lean", "Num.lean", "F64.lean", "StrNum.lean", "C05.lean", "Proto.lean") for e in errs)
     if have_model:
-        rc, out, _ = ctx.run_lines([model], ["shapes"])
-        ctx.stats["shapes"] = out[0] if out else "?"
-        have_model = rc == 0 and bool(out) and out[0].startswith("tail=")
+        rc, out, _ = ctx.run_lines([model], ["f2v 4018000000000000"])
+        have_model = rc == 0 and out[:1] == ["i6"]
     if not have_model:
         ctx.log("model driver unavailable: judging with the python oracle only")
+    t_audit = time.time() - ctx.t0
 
     # ---------------------------------------------------------------- 4. harness
     h = ctx.go_build()
@@ -479,6 +567,7 @@ def main(ctx):
         js_expect[l] = (None if eb is None else py_canon_of_bits(eb), "producer")
     # string -> number, every string kind (ascii / unicode / Go-imported), every entry point
     strs = list(STR_POOL)
+    str_cases = []
     nstr = 300 if quick else 4000
     for _ in range(nstr):
         core = rng.choice(STR_POOL)
@@ -500,6 +589,43 @@ def main(ctx):
             if l not in js_expect:
                 lines.append(l)
                 js_expect[l] = (py_canon_of_bits(fb), "str2num")
+        str_cases.append((s, "js " + ("Number(%s)" % js_str_literal(s)), eb))
+    # expression trees (depth <= 4) over operators and exact Math functions, leaves = boundary doubles passed as ARGUMENTS
+    # (so nothing is constant-folded); python evaluates the same tree on binary64
+    ntree = 1500 if quick else 25000
+    tree_leaves = [tok_to_float(t) for t in grid]
+    trees = []
+    by_value = {}
+    for _ in range(ntree):
+        depth = rng.choice((2, 3, 3, 4, 4))
+        vals = [rng.choice(tree_leaves) for _ in range(3)]
+        src, val = gen_tree(rng, depth, vals)
+        call = "(function(a,b,c){function inc(x){x++;return x} function dec(x){--x;return x} return %s})(%s,%s,%s)" % (
+            src, js_num_literal(vals[0]), js_num_literal(vals[1]), js_num_literal(vals[2]))
+        l = "js " + call
+        if l in js_expect:
+            continue
+        lines.append(l)
+        exp = py_canon_of_bits(f2b(val))
+        js_expect[l] = (exp, "tree")
+        trees.append((call, val))
+        by_value.setdefault(exp, []).append(call)
+    # pairs of trees with the SAME value must be indistinguishable; pairs with different values are judged by the spec too
+    tree_pairs = []
+    keys = sorted(by_value)
+    for k in keys:
+        g = by_value[k]
+        for j in range(0, min(len(g) - 1, 6), 1):
+            tree_pairs.append((g[j], g[j + 1], k, k))
+    for _ in range(60 if quick else 600):
+        k1, k2 = rng.choice(keys), rng.choice(keys)
+        tree_pairs.append((rng.choice(by_value[k1]), rng.choice(by_value[k2]), k1, k2))
+    obs_js = OBS_JS
+    for e1, e2, k1, k2 in tree_pairs:
+        l = "js (%s)(%s, %s)" % (obs_js, e1, e2)
+        lines.append(l)
+        sv, svz, seq = spec_identity(tok_to_float(k1), tok_to_float(k2))
+        js_expect[l] = ("o:string:" + obs_expected(sv, svz, seq), "treepair")
     # ToValue of Go numeric types
     gov = []
     for t, lo, hi in [("int8", -128, 127), ("int16", -32768, 32767), ("int32", -(1 << 31), (1 << 31) - 1), ("int64", -(1 << 63), (1 << 63) - 1), ("int", -(1 << 63), (1 << 63) - 1),
@@ -521,6 +647,7 @@ def main(ctx):
     for v in rng.sample(canon_set, min(len(canon_set), 300)):
         lines.append("exp " + v)
 
+    ctx.stats["phase_seconds"] = {"regen+lake": round(t_build, 1), "audit+leanchecker": round(t_audit - t_build, 1), "go_build+generate": round(time.time() - ctx.t0 - t_audit, 1)}
     ctx.log("cases: %d lines (%d bit patterns, %d ints, %d strings)" % (len(lines), len(bits), len(ints), len(strs)))
 
     # ---------------------------------------------------------------- run
@@ -545,6 +672,33 @@ def main(ctx):
             have_model = False
         else:
             mout = dict(zip(midx, mo))
+    # StringToNumber through the Lean model (mechanism transcription, spec recogniser, exact value -> nearest double)
+    str_out = {}
+    if have_model and str_cases:
+        def units(t):
+            b = t.encode("utf-16-be", "surrogatepass")
+            return b.hex() if b else "-"
+        rc, so, _ = ctx.run_lines([model], ["str " + units(t) for t, _, _ in str_cases], timeout=900)
+        if rc == 0 and len(so) == len(str_cases):
+            line_idx = {l: k for k, l in enumerate(lines)}
+            bad_ms, bad_py, bad_impl = [], [], []
+            for (t, jl, eb), o in zip(str_cases, so):
+                w = o.split()
+                if len(w) != 3:
+                    bad_ms.append((t, o, "")); continue
+                if w[0] != w[1]:
+                    bad_ms.append((t, w[0][:60], w[1][:60]))
+                if py_canon_of_bits(int(w[2], 16)) != py_canon_of_bits(eb):
+                    bad_py.append((t, w[2], "%016x" % eb))
+                k = line_idx.get(jl)
+                if k is not None and k < len(impl) and impl[k] != py_canon_of_bits(int(w[2], 16)):
+                    bad_impl.append((t, impl[k], w[2]))
+                ctx.nontriv(("str", w[0][:4], w[0] == "nan", len(t) > 20))
+            ctx.obligation("corr:str Lean-mechanism=Lean-spec-recogniser", "correspondence", not bad_ms, "; ".join(repr(x) for x in bad_ms[:3]))
+            ctx.obligation("corr:str python-oracle=Lean-value", "correspondence", not bad_py, "; ".join(repr(x) for x in bad_py[:3]))
+            ctx.obligation("corr:str impl=Lean-mechanism", "correspondence", not bad_impl, "%d/%d; " % (len(bad_impl), len(str_cases)) + "; ".join(repr(x) for x in bad_impl[:3]))
+        else:
+            ctx.obligation("tie.model.run.str", "tie", False, "rc=%s %d/%d" % (rc, len(so), len(str_cases)))
     # second pass: canonicity of every numeric token the implementation produced (judge: the model's `Canon`)
     toks = sorted({t for t in impl if is_num_tok(t)})
     canon_of = {t: py_is_canon(t) for t in toks}
@@ -687,6 +841,15 @@ def main(ctx):
             ctx.nontriv(("op", w[1], a[0], b[0], out[0], spec[0], spec in ("f8000000000000000", "f7ff8000000000001", "i0")))
         elif kind == "js":
             exp, cls = js_expect.get(l, (None, "corpus"))
+            if cls == "treepair":
+                if out != exp:
+                    got, want = out[len("o:string:"):], exp[len("o:string:"):]
+                    diff = [OBS_NAMES[j] for j in range(len(want)) if j < len(got) and got[j] != want[j]] if len(got) == len(want) else ["<%s>" % out]
+                    viol("tree-pair-observers:" + ",".join(diff)[:80], "two expression trees (%s): observers %s differ from spec (got %s want %s)" %
+                         ("same value" if want[0] == "1" else "different values", diff, got, want),
+                         {"kind": "program", "source": l[3:], "expected": exp, "observed": out, "observer_names": OBS_NAMES})
+                ctx.nontriv(("treepair", exp))
+                continue
             if not is_num_tok(out):
                 sig = corpus_sig.get(l)
                 if sig is None and "Math.sign(" in l and out.startswith("o:"):
@@ -738,11 +901,12 @@ def main(ctx):
         ctx.sample("%s -> %s" % (l[:100], o))
     stats["branches"] = dict(sorted(stats["branches"].items()))
     ctx.stats.update(stats)
-    ctx.stats["sizes"] = {"lines": len(lines), "bit_patterns": len(bits), "ints": len(ints), "strings": len(strs), "scripts": len(jsc), "corpus": len(corpus),
+    ctx.stats["sizes"] = {"trees": len(trees), "tree_pairs": len(tree_pairs), "lines": len(lines), "bit_patterns": len(bits), "ints": len(ints), "strings": len(strs), "scripts": len(jsc), "corpus": len(corpus),
                           "exhaustive": "no (sampled; boundary classes enumerated)"}
     return ctx.finish(level="proof",
                       rule="one case = one protocol line (a bit pattern / int / operand pair / string / script through one entry point); distinct non-trivial = "
                            "distinct (entry point, operand representation tags, exponent class or magnitude class, result tag/spec class) tuples; "
+                           "expression trees: depth<=4 over 11 binary ops, 15 unary ops/functions, Math.max/min, leaves from the boundary grid, distinct by (value class) and by source text; "
                            "operands: boundary classes enumerated (±0, ±2^k±d for k in 7..1023, NaN payloads, subnormals, ≥2^63 with low bits) + seeded random in 10 strata")
 
 def classify_str(line, out, exp):
